@@ -219,7 +219,7 @@ func (v *MissScopeVariables) Add(s context.Scope, name string, val value.Value) 
 		return errors.WithStack(err)
 	}
 
-	v.ctx.BackendRequest.Header.Add(match[1], val.String())
+	addRequestHeaderValue(v.ctx.BackendRequest, match[1], val)
 	return nil
 }
 
